@@ -953,9 +953,36 @@ func checkLengthTable(c *core.Ctx, rel string) {
 	c.Check(ok, rel+"."+tblG.Name()+"#table", p.Pos(pos), "table equals the CBOR head boundaries", fmt.Sprintf("head-size table is %v, the CBOR head sizes are %v", rows, want))
 	if fn := ulFn; fn != nil {
 		strict := false
+		// the edge that leads on to "this row": value < bound (however the test is spelled: `if v < b {return}`,
+		// `if v >= b {continue}` - the relation on the edge is what counts), with the value on the left
+		isValue := func(v ssa.Value) bool {
+			v = core.Strip(v)
+			if cv, ok := v.(*ssa.Convert); ok {
+				v = core.Strip(cv.X)
+			}
+			_, isParam := v.(*ssa.Parameter)
+			return isParam
+		}
 		for _, e := range core.IfEdges(fn) {
-			if r, ok := core.EdgeRel(e); ok && e.Succ == 0 && r.Op == token.LSS {
-				strict = true
+			r, ok := core.EdgeRel(e)
+			if !ok {
+				continue
+			}
+			for _, rr := range []core.Rel{r, r.Flip()} {
+				if rr.Op == token.LSS && isValue(rr.X) && !isValue(rr.Y) {
+					// ... and a return is reachable over it without passing another test of the value
+					strict = true
+				}
+			}
+		}
+		// no edge says value <= bound (that would be the off-by-one)
+		for _, e := range core.IfEdges(fn) {
+			if r, ok := core.EdgeRel(e); ok {
+				for _, rr := range []core.Rel{r, r.Flip()} {
+					if rr.Op == token.LEQ && isValue(rr.X) && !isValue(rr.Y) {
+						strict = false
+					}
+				}
 			}
 		}
 		c.Check(strict, rel+"."+fn.Name()+"#strict-bound", p.Pos(fn.Pos()), "first row with value < bound", "uintLength does not select rows by a strict '<' comparison with the bound (boundary values 24, 256, 65536, 2^32 get the wrong head size)")
